@@ -43,8 +43,10 @@ const CORPUS: &[(&str, &str)] = &[
     ("(?=[a-c])\\w", ""),
     ("[^\\s]+", ""),
     ("a*", ""),
+    ("\\p{L}+", "u"),
+    ("\\p{Lu}\\p{Ll}*", "u"),
 ];
-const HAYS: &[&str] = &["aab bbb abb", "xay xby", "éaüb kKß", "aA bB kK", "xyxy", "Ab aB AB", "ābĉ aab", "ß", "", "abcabc é"];
+const HAYS: &[&str] = &["白的😀的用🔥", "理👍生🔥", "aab bbb abb", "xay xby", "éaüb kKß", "aA bB kK", "xyxy", "Ab aB AB", "ābĉ aab", "ß", "", "abcabc é"];
 
 type Query = (usize, usize, usize); // (regex index, haystack index, start)
 
@@ -62,6 +64,14 @@ fn main() {
         let specs = vec![("(a|b){2}\\1", ""), ("(?:(a)|(b))+", ""), ("(?<=x)y", ""), ("ab", "i")];
         let hays = vec!["aab bbb abb", "aabbb", "xay xby", "ab", "xyxy", "yxy", "Ab aB AB", "zz", "abab", "b"];
         let qs = vec![(0, 0, 0), (0, 1, 0), (1, 2, 0), (1, 3, 1), (2, 4, 1), (2, 5, 0), (3, 6, 0), (3, 7, 0), (0, 8, 2), (1, 9, 0)];
+        (specs.into_iter().map(|(a, b)| (a.to_string(), b.to_string())).collect(), hays.into_iter().map(|s| s.to_string()).collect(), qs)
+    } else if seed % 1000 == 999 {
+        // fixed large-Unicode-class scenario: a class with hundreds of intervals, haystacks whose
+        // characters come from code-point pages that collide in small direct-mapped tables
+        // (U+7684 / U+1F600, U+751F / U+1F525, U+7406 / U+1F44D are congruent mod 128 pages)
+        let specs = vec![("\\p{L}+", "u"), ("[^\\p{L}\\s]+", "u")];
+        let hays = vec!["白的😀的用🔥", "理👍生🔥的", "的😀", "用🔥理，美！", "😀的😀的"];
+        let qs = vec![(0, 0, 0), (0, 1, 0), (0, 2, 0), (0, 3, 0), (0, 4, 0), (1, 0, 0), (1, 1, 0), (1, 3, 0), (0, 0, 3), (0, 4, 4)];
         (specs.into_iter().map(|(a, b)| (a.to_string(), b.to_string())).collect(), hays.into_iter().map(|s| s.to_string()).collect(), qs)
     } else {
         let mut x = seed;
